@@ -194,6 +194,15 @@ Example c09_uisra_orderings_necessary :
   used_race_after uis_ords_code ra_sched_fail = false.
 Proof. exact uisra_orderings_necessary. Qed.
 
+(* under stale reads the verdict OutOfIndices is taken on the head word at the position of the
+   modification order the thread observed last (vspos l'), which is never older than its previous
+   observation: "at some instant since the thread's last look every index was owned", not
+   necessarily an instant of the call (a plain Acquire load need not return the newest value) *)
+Theorem c09_uisra_out_of_indices_verdict : forall Q t g l g' l' es,
+  vstep Q t g l = Some (g', l', es) -> In (ERet RC_OUT_OF_INDICES) es ->
+  ucap (vg g) <= hd_head (nthN (vhist g) (vspos l') 0).
+Proof. exact vret_out_of_indices_source. Qed.
+
 Example c09_uisra_nonvacuous_stale :
   let c := fst (run (vstep uis_ords_code) [0;0;0;0;0;0; 1;1;1;1;1;1;1;1;1]%nat (vinit 2 32 [0; 5] ra_progs)) in
   uheld (vsc (snd c 0%nat)) = [0] /\ uheld (vsc (snd c 1%nat)) = [1] /\ vrace_used (fst c) = false /\
@@ -201,6 +210,7 @@ Example c09_uisra_nonvacuous_stale :
 Proof. exact uisra_nonvacuous_stale. Qed.
 End UISRA.
 Print Assumptions UISRA.c09_uisra_exclusive_and_used_race_free.
+Print Assumptions UISRA.c09_uisra_out_of_indices_verdict.
 Print Assumptions UISRA.c09_uisra_orderings_necessary.
 Print Assumptions UISRA.c09_uisra_nonvacuous_stale.
 
